@@ -76,9 +76,9 @@ func load(repo string, opt loadOptions) (*Program, error) {
 	}
 	fset := token.NewFileSet()
 	cfg := &packages.Config{
-		Mode:  packages.LoadSyntax | packages.NeedModule,
-		Dir:   abs,
-		Fset:  fset,
+		Mode:    packages.LoadSyntax | packages.NeedModule,
+		Dir:     abs,
+		Fset:    fset,
 		Env:     filtered,
 		Tests:   opt.Tests,
 		Overlay: opt.Overlay,
